@@ -531,6 +531,80 @@ Definition abs (s : cstate) : astate :=
      got := abs_opt n (got _ _ s); ntx := ntx _ _ s; ccl := ccl _ _ s; hasconn := hasconn _ _ s;
      cn := abs_conn n (cn _ _ s); cl := cl _ _ s; after_close := after_close _ _ s; callno := tt |}.
 
+(** * Vocabulary of the theorems (definitions only) *)
+
+(** Sub-relations of the step relation, by label. *)
+(** the environment starts something new: a new call, a new Client.Close() *)
+Definition is_start (l : label) : bool := match l with LNewCall _ | LCloseStart => true | _ => false end.
+(** steps that need nothing from the outside: goroutine-internal steps, the hooks, the dialer
+    returning, reads of data already received, and the failures forced by a locally closed stream.
+    Excluded: the transport completing a write, the server replying, the network failing, the
+    caller's context being cancelled, new calls, new Close invocations. *)
+Definition is_own (l : label) : bool :=
+  match l with
+  | LTau _ | LHookLoaded | LHookSent | LDial _ | LDrop | LRead | LRet _ | LWrite WrClosed => true
+  | _ => false
+  end.
+(** benign environment: the dialer succeeds, writes complete, the server replies, nothing fails,
+    the context is not cancelled, nobody calls Close *)
+Definition is_benign (l : label) : bool :=
+  match l with
+  | LTau _ | LHookLoaded | LHookSent | LDial true | LDrop | LRead | LWrite WrOk | LWrite WrClosed | LSrv SReply => true
+  | _ => false
+  end.
+Definition returned (p : upc) : bool := match p with URetOk | URetErr => true | _ => false end.
+
+Definition by_label {S : Type} (keep : label -> bool) (l : list (label * S)) : list S :=
+  map snd (filter (fun x => keep (fst x)) l).
+
+Definition cstep' (s : cstate) : list cstate := map snd (cstep s).
+Definition cstepF (s : cstate) : list cstate := by_label (fun l => negb (is_start l)) (cstep s).
+Definition cstepQ (s : cstate) : list cstate := by_label is_own (cstep s).
+Definition cstepG (s : cstate) : list cstate := if returned (u _ _ s) then [] else by_label is_benign (cstep s).
+Definition costep' (o : orphan nat) : list (orphan nat) := map snd (ostep nat o).
+
+Definition astep' (s : astate) : list astate := map snd (astep s).
+Definition astepF (s : astate) : list astate := by_label (fun l => negb (is_start l)) (astep s).
+Definition astepQ (s : astate) : list astate := by_label is_own (astep s).
+Definition astepG (s : astate) : list astate := if returned (u _ _ s) then [] else by_label is_benign (astep s).
+Definition aostep' (o : orphan bool) : list (orphan bool) := map snd (aostep o).
+
+Section Spec.
+  Variables T K : Type.
+  Definition is_none {A} (o : option A) := match o with None => true | Some _ => false end.
+
+  (** a connection in service *)
+  Definition conn_alive (c : conn T) : bool := is_none (cctx _ c) && negb (cclosed _ c) && negb (sclosed _ c).
+  (** a live connection at rest: readloop parked in Recv with nothing to read, writeloop parked in
+      its select or inside Send *)
+  Definition conn_parked (c : conn T) : bool :=
+    conn_alive c && match rl _ c with RlRecv => true | _ => false end && is_none (cwire _ c)
+    && match wl _ c with WlSelect | WlSend => true | _ => false end.
+  (** a terminated connection whose two goroutines have finished and whose stream is closed *)
+  Definition conn_gone (c : conn T) : bool :=
+    negb (is_none (cctx _ c)) && sclosed _ c && rxclosed _ c
+    && match rl _ c with RlDone => true | _ => false end && match wl _ c with WlDone => true | _ => false end.
+
+  (** where everything is when no goroutine can move by itself *)
+  Definition quiescent_ok (s : client T K) : bool :=
+    let c := cn _ _ s in
+    match cl _ _ s with CIdle => true | _ => false end
+    && (if hasconn _ _ s then conn_parked c || conn_gone c else true)
+    && (if ccl _ _ s && hasconn _ _ s then conn_gone c else true)
+    && match u _ _ s with
+       | UIdle => true
+       | S4 => hasconn _ _ s && conn_parked c && match wl _ c with WlSend => true | _ => false end && negb (uctx _ _ s)
+       | V2 => hasconn _ _ s && conn_parked c && negb (uctx _ _ s)
+       | _ => false
+       end.
+
+  (** an abandoned connection that has wound up *)
+  Definition orphan_gone (o : orphan T) : bool :=
+    match snd o with CIdle => true | _ => false end && sclosed _ (fst o)
+    && match rl _ (fst o) with RlDone => true | _ => false end && match wl _ (fst o) with WlDone => true | _ => false end.
+End Spec.
+Arguments is_none {A}.
+
 (** * Encoding of abstract states into [positive] (for the state sets of Lts.v) *)
 
 Fixpoint enc_l (l : list nat) : positive :=
